@@ -130,6 +130,30 @@ func main() {
 		}()
 		f(r)
 	}()
+	if mutantMode && spec.Expect == "SILENT" {
+		// behaviour-preserving variant: nothing may fire beyond the recorded known findings, nothing may break
+		known := map[string]bool{}
+		if fs, err := loadFindings(verif); err == nil {
+			for _, f := range fs {
+				if f.Property == id && f.Status == "known" {
+					known[f.Key] = true
+				}
+			}
+		}
+		var fired []string
+		for _, o := range r.Obs {
+			if o.Status == "violation" && !known[o.Key] {
+				fired = append(fired, o.Key)
+			}
+		}
+		sort.Strings(fired)
+		if len(fired) == 0 && len(r.Broken) == 0 {
+			fmt.Printf("MUTANT-SILENT %s\n", spec.Name)
+			os.Exit(0)
+		}
+		fmt.Printf("MUTANT-FALSE-ALARM %s fired=%v broken=%v\n", spec.Name, fired, r.Broken)
+		os.Exit(6)
+	}
 	if mutantMode {
 		// self-test mode: report whether the expected obligation fired; never writes evidence
 		hit := false
